@@ -81,6 +81,8 @@ Definition parse_ssh_mpint (buf : bytes) (pos : Z) : result (Z * Z) :=
   if zlen buf - pos <? 4 then Err (NotEnoughData (4 - (zlen buf - pos)))
   else
     let* (len, n) := parse_numeric Network 4 buf pos in
+    (* "fix: report a truncated SSH mpint as not enough data" *)
+    if len >? (zlen buf - pos) - n then Err (NotEnoughData (len - ((zlen buf - pos) - n))) else
     let* negative :=
        if len =? 0 then Ok false
        else match nth_error buf (Z.to_nat (pos + 4)) with      (* six.indexbytes(self._parsable, pos + 4) *)
